@@ -1355,6 +1355,31 @@ fn gen_atomic(g: &mut Gen, ntx: usize) {
             _ => Op::DropSession(s),
         });
         g.dump();
+        // transaction control outside the enclosed segment: ends without a transaction, a second begin
+        if g.rng.chance(1, 3) {
+            let s2 = g.sess();
+            match g.rng.below(4) {
+                0 => {
+                    g.push(Op::Commit(s2));
+                }
+                1 => {
+                    g.push(Op::Rollback(s2));
+                }
+                2 => {
+                    g.push(Op::Begin(s2));
+                    g.push(Op::Begin(s2));
+                    g.push(Op::Rollback(s2));
+                    g.push(Op::Rollback(s2));
+                }
+                _ => {
+                    g.push(Op::Begin(s2));
+                    g.push(Op::Commit(s2));
+                    g.push(Op::Commit(s2));
+                    g.push(Op::Begin(s2));
+                    g.push(Op::Rollback(s2));
+                }
+            }
+        }
     }
 }
 
@@ -1398,6 +1423,8 @@ fn corpus(prop: &str) -> Vec<(&'static str, Vec<Op>, bool)> {
         v.push(("corpus:K5-commit-epoch", vec![], true));
         v.push(("corpus:clean-rollback", vec![CreateNode(OBSERVER, vec![0], vec![(1, Some(2))], false), InsertTriple(OBSERVER, (0, 0, 0))], true));
         v.push(("corpus:clean-commit", vec![CreateNode(OBSERVER, vec![0], vec![(1, Some(2))], false), InsertTriple(OBSERVER, (0, 0, 0))], true));
+        // error paths of the transaction state machine (judged by ctl_fails)
+        v.push(("corpus:state-machine", vec![Commit(0), Rollback(0), Begin(0), Begin(0), Commit(0), Commit(0), Begin(0), Rollback(0), Rollback(0), Begin(0), DropSession(0), Begin(0), Rollback(0)], false));
     }
     v
 }
